@@ -333,6 +333,15 @@ theorem xor_involutive (code b : Data) (hne : code ≠ []) : xorEnc code (xorEnc
 theorem xor_hides (code b : Data) (hne : code ≠ []) (h0 : ∀ x ∈ code, x ≠ 0) (i : Nat) (hi : i < b.length) :
     (xorEnc code b)[i]? ≠ b[i]? := Liquer.xor_hides code b hne h0 i hi
 
+/-- the XOR file layer never merges two values: different stored bytes give different files -/
+theorem xor_injective (code a b : Data) (hne : code ≠ []) (h : xorEnc code a = xorEnc code b) : a = b := by
+  have := congrArg (xorEnc code) h
+  rwa [xor_involutive code a hne, xor_involutive code b hne] at this
+
+/-- and it keeps the length (a reader sizing the value by the file is right) -/
+theorem xor_length (code b : Data) (hne : code ≠ []) : (xorEnc code b).length = b.length := by
+  simp [xorEnc, Liquer.codeOfLength_length code hne]
+
 example : ([0x5A, 0x13, 0xC7] : Data) ≠ [] ∧ ∀ x ∈ ([0x5A, 0x13, 0xC7] : Data), x ≠ 0 := by decide
 
 end Liquer.C13
@@ -340,4 +349,4 @@ end Liquer.C13
 -- OBLIGATIONS: Liquer.C13.kv_store_get Liquer.C13.kv_remove Liquer.C13.kv_clean Liquer.C13.kv_meta_only_no_data Liquer.C13.kv_meta_data Liquer.C13.kv_frame Liquer.C13.kvOps_is_instance
 -- OBLIGATIONS: Liquer.C13.memc_refines Liquer.C13.filec_refines Liquer.C13.sqlc_refines Liquer.C13.storec_refines_partial Liquer.C13.storec_paths_injective Liquer.C13.storec_flat_pathsOK Liquer.C13.storec_nested_confusion Liquer.C13.storec_nested_normalised_not_injective
 -- OBLIGATIONS: Liquer.C13.storec_refines_keys_partial Liquer.C13.storec_refines_keys_from Liquer.C13.storec_slash_keys Liquer.C13.storec_slash_clean Liquer.C13.storec_unnormalised_false Liquer.C13.storec_refines Liquer.C13.storec_slash_same Liquer.C13.storec_slash_fixed Liquer.C13.norm_of_no_slash
--- OBLIGATIONS: Liquer.C13.combine_refines Liquer.C13.cond_refines Liquer.C13.proxy_refines Liquer.C13.no_plus_mem_refines Liquer.C13.mem_if_refines Liquer.C13.if_plus_mem_refines Liquer.C13.xor_involutive Liquer.C13.xor_hides
+-- OBLIGATIONS: Liquer.C13.combine_refines Liquer.C13.cond_refines Liquer.C13.proxy_refines Liquer.C13.no_plus_mem_refines Liquer.C13.mem_if_refines Liquer.C13.if_plus_mem_refines Liquer.C13.xor_involutive Liquer.C13.xor_hides Liquer.C13.xor_injective Liquer.C13.xor_length
